@@ -116,6 +116,18 @@ func customUnits() *schema.UnitsDefinition {
 	)
 }
 
+// customUnits2 has the unit NAMES of customUnits with other multipliers: the same text denotes different
+// quantities under the two definitions (anything keyed by the text alone mixes them up).
+func customUnits2() *schema.UnitsDefinition {
+	return schema.NewUnits(
+		schema.NewUnit("g", "g", "gram", "grams"),
+		map[int64]*schema.UnitDefinition{
+			100:   schema.NewUnit("kg", "kg", "kilogram", "kilograms"),
+			10000: schema.NewUnit("t", "t", "tonne", "tonnes"),
+		},
+	)
+}
+
 type kindInfo struct {
 	kind    string // model kind
 	origins []string
@@ -130,11 +142,13 @@ var ckinds = map[string]kindInfo{
 	"float_bytes":   {"units", []string{"global", "rebuilt"}},
 	"int_custom":    {"units", []string{"fresh", "rebuilt"}},
 	"float_custom":  {"units", []string{"fresh", "rebuilt"}},
+	"int_custom2":   {"units", []string{"fresh", "rebuilt"}},
 	"int_chars":     {"units0", []string{"global", "rebuilt"}},
 	"int_pct":       {"units0", []string{"global", "rebuilt"}},
 	"float_pct":     {"units0", []string{"global", "rebuilt"}},
 	"int_custom0":   {"units0", []string{"fresh", "rebuilt"}},
 	"objmap":        {"objmap", []string{"fresh", "rebuilt"}},
+	"plugin_input":  {"objmap", []string{"rebuilt"}}, // step input of a schema returned by UnserializeSchema
 	"objstruct":     {"objstruct", []string{"fresh", "rebuilt"}},
 	"mapcoll":       {"mapcoll", []string{"fresh", "rebuilt"}},
 	"anycoll":       {"mapcoll", []string{"fresh", "rebuilt"}},
@@ -168,6 +182,8 @@ func unitsFor(ckind string) (*schema.UnitsDefinition, bool) {
 		return customUnits(), false
 	case "float_custom":
 		return customUnits(), true
+	case "int_custom2":
+		return customUnits2(), false
 	case "int_custom0":
 		return schema.NewUnits(schema.NewUnit("pt", "pts", "point", "points"), nil), false
 	}
@@ -263,6 +279,32 @@ func build(ckind, origin string) (*instance, error) {
 	in := &instance{ckind: ckind, kind: info.kind, origin: origin, mult: 1}
 	if ckind == "steps" {
 		buildSteps(in)
+		return in, nil
+	}
+	if ckind == "plugin_input" {
+		// a whole plugin schema described by SelfSerialize and rebuilt by UnserializeSchema (which links the
+		// step inputs and outputs itself): the instance is the rebuilt input scope of its step
+		src, err := buildScope("objmap")
+		if err != nil {
+			return nil, err
+		}
+		out := schema.NewScopeSchema(schema.NewObjectSchema("out", map[string]*schema.PropertySchema{"n": prop(intT(), nil)}))
+		step := schema.NewCallableStep[map[string]any]("s", src,
+			map[string]*schema.StepOutputSchema{"ok": schema.NewStepOutputSchema(out, nil, false)}, nil,
+			func(_ context.Context, i map[string]any) (string, any) { return "ok", map[string]any{"n": i["n"]} })
+		d, err := schema.NewCallableSchema(step).SelfSerialize()
+		if err != nil {
+			return nil, fmt.Errorf("SelfSerialize of the plugin schema: %w", err)
+		}
+		rebuilt, err := schema.UnserializeSchema(d)
+		if err != nil {
+			return nil, fmt.Errorf("UnserializeSchema: %w", err)
+		}
+		sc, ok := rebuilt.Steps()["s"].Input().(*schema.ScopeSchema)
+		if !ok {
+			return nil, fmt.Errorf("rebuilt step input is %T", rebuilt.Steps()["s"].Input())
+		}
+		in.scope, in.target = sc, sc
 		return in, nil
 	}
 	s, err := buildScope(ckind)
